@@ -566,6 +566,27 @@ def check_C08(tier):
     return c.finish()
 
 
+def check_C09(tier):
+    c = Ctx("C09", tier, level="exploration")
+    q = tier == "quick"
+    # the decode pipelines of the suite are total operators: re-check the ones with a dedicated invariant
+    c.mc("Did", "MC_C16.cfg", dict(KeyIds="{1}", Deviations="{}", Emit=""), label="Did: Total (key extraction never crashes)")
+    c.mc("Did", "MC_C16.cfg", dict(KeyIds="{1}", Deviations='{"EcdsaNilPointNotChecked"}', Emit=""), expect_violation="Total",
+         label="sensitivity: a crashing unmarshaller violates Total")
+    rounds = 1 if q else 6
+    for k in range(rounds):
+        tr = c.drive("total", 2500 if q else 40000, seed_offset=k)
+        c.validate("total", "TraceTotal", "TraceTotal.cfg", tr, timeout=3000,
+                   rule="16 entry points (token / container / policy / selector / DID decoders, PubKey, Policy.Match on arbitrary data) on "
+                        "(1) ~70 structured hostile inputs behind a valid signature (deep nesting up to 60 000, integers up to 2^64-1, "
+                        "invalid key material of every codec, pathological globs and selectors, wrong shapes) also inside containers and as "
+                        "DAG-JSON, (2) hostile container / CBOR / JSON structures (section lengths up to 2^62, 2^40-element heads, 200 000 "
+                        "nested items), (3) random and mutated inputs from the repository's corpora and honest artefacts; each call under "
+                        "recover, a 20 s deadline and an allocation measurement; TraceTotal accepts only value/error within "
+                        "128 MiB + 4096 B per input byte")
+    return c.finish()
+
+
 CHAIN = {
     "C01": dict(q="MC_C01_q.cfg", t=["MC_C01_t.cfg", "MC_C01_t4.cfg"], dev='{"AudAsSubject"}',
                 rule="every invocation x proof list over principals {A,B,M}(+C), links over all principals, Undef subject and "
@@ -612,7 +633,7 @@ def check_chain(pid):
     return run
 
 
-CHECKS = {"C13": check_C13, "C15": check_C15, "C12": check_C12, "C14": check_C14, "C11": check_C11, "C16": check_C16, "C06": check_envelope("C06"), "C10": check_envelope("C10"), "C07": check_C07, "C17": check_C17, "C18": check_C18, "C19": check_C19, "C20": check_C20, "C08": check_C08}
+CHECKS = {"C13": check_C13, "C15": check_C15, "C12": check_C12, "C14": check_C14, "C11": check_C11, "C16": check_C16, "C06": check_envelope("C06"), "C10": check_envelope("C10"), "C07": check_C07, "C17": check_C17, "C18": check_C18, "C19": check_C19, "C20": check_C20, "C08": check_C08, "C09": check_C09}
 for _p in CHAIN:
     CHECKS[_p] = check_chain(_p)
 
